@@ -14,6 +14,7 @@ from common import REPO, WORK
 
 MIR_DIR = os.path.join(WORK, "mir")
 POOL_PROPS = {"C01", "C02", "C09", "C10", "C13", "C20"}
+MIR_PROPS = POOL_PROPS | {"C06"}
 
 
 def source_hash():
@@ -75,7 +76,7 @@ def fmt_ip(v):
 
 
 def run_property(pid, tier, seed, logdir):
-    if pid not in POOL_PROPS:
+    if pid not in MIR_PROPS:
         return []
     from mirsym import props_pool
     from mirsym.values import Unsupported
@@ -93,6 +94,32 @@ def run_property(pid, tier, seed, logdir):
                     "lease table: arbitrary rows satisfying PRIMARY KEY(address), 0 <= start <= expiry < 2^32; TEXT address column holds canonical dotted quads (ToString/parse are mutually inverse)",
                     "client identifier / raw options: opaque blobs compared only by equality",
                     "calculate_hash abstracted; sort_unstable over the hashed order = any permutation"]
+    if pid == "C06":
+        from mirsym import props_cache, enums as _en
+        structs = _en.scan_structs(REPO)
+        shapes = [(1, 0, 0), (0, 1, 0), (0, 0, 1), (1, 1, 1), (0, 0, 0)] if tier == "quick" else \
+                 [(1, 0, 0), (0, 1, 0), (0, 0, 1), (1, 1, 1), (0, 0, 0), (2, 0, 1), (1, 2, 0), (2, 2, 2)]
+        for shape in shapes:
+            name = "c06_cache_lookup_sections_%d_%d_%d" % shape
+            t0 = time.time()
+            try:
+                failed, ex, npaths, kinds = props_cache.obligation(prog, en, structs, shape)
+                for f in failed:
+                    f["check"] = name
+                    f["counterexample"]["shape"] = list(shape)
+                obligations.append(dict(
+                    name=name, engine="mirsym", functions=sorted(f.split("::")[-1] for f in ex.encoded_fns),
+                    bounds="cached reply with %d answer + %d authority + %d additional records (all TTLs symbolic over 0..2^32-1), one stored entry, stored and looked-up key symbolic in all four fields, birth and lookup instants symbolic (monotonic clock), lifetime computed by the real calculate_expiry" % shape,
+                    oracle="lifetime = min TTL; hit only for an identical key and only while elapsed <= min TTL; every served TTL = original - whole seconds elapsed, nothing else changes; an unexpired identical entry is served; no arithmetic panic",
+                    stubs=["HashMap::get = lookup over the bounded entry list using the crate's own derived CacheKey::eq", "Domain names abstracted to identities (equality only)",
+                           "tokio Instant/Duration arithmetic summarised (seconds + nanoseconds with carry, Instant - Instant saturating)",
+                           "logging disabled, prometheus counters no-ops", "derived Clone = structural copy"] + sorted(ex.used_summaries),
+                    tier=tier, verdict="fail" if failed else "pass", reason="", queries=ex.queries, solver_time_s=round(ex.solver_time, 2),
+                    failed=_dedup(failed), paths=npaths, path_kinds=kinds, wall_s=round(time.time() - t0, 1)))
+            except (Unsupported, Unwind) as e:
+                obligations.append(dict(name=name, engine="mirsym", functions=[], bounds="", oracle="", stubs=[], tier=tier,
+                                        verdict="inconclusive", reason=f"outside the encoder's subset: {e}", queries=0, solver_time_s=0, failed=[]))
+        return obligations
     if pid == "C20":
         for n in ([1, 3] if tier == "quick" else [1, 2, 3, 4, 5]):
             name = f"c20_gauges_table_of_{n - 1}_rows_or_fewer"
